@@ -105,8 +105,11 @@ class HistoryRun:
                 self.problems.append(("server does not start", srv_.logtext()))
                 return self
             sids = {}
+            srv_.timeout = 20.0        # one request may take this long before it counts as unanswered (the machine may be loaded by parallel checks)
             for rq in self.requests:
                 kind = rq["kind"]
+                if srv_.timeouts >= 2:
+                    break              # two unanswered requests are reported; the rest of the history would only wait
                 if kind in ("convert", "proper"):
                     ctx = rq.get("context", "Normal")
                     if kind == "proper":
@@ -194,6 +197,7 @@ class HistoryRun:
                     time.sleep(0.05)
                     srv_.stop()
                     srv_ = Server(d, user_dir=ud, save_seconds=1)
+                    srv_.timeout = 20.0
                     if not srv_.up:
                         self.problems.append(("server does not start again on the user data it wrote", srv_.logtext()))
                         break
